@@ -1,6 +1,7 @@
 """Process-parallel map for the implementation side of the checks (solver calls, gene loads)."""
 import multiprocessing
 import os
+import time
 
 
 def _init():
@@ -12,12 +13,92 @@ def _init():
     os.dup2(dn, 2)
 
 
-def pmap(fn, items, jobs=None):
-    """fn must be a module-level function; items a list of picklable arguments."""
+TIMED_OUT = []  # (function name, item) of tasks killed by the watchdog in this process (reported in the evidence)
+
+
+def _worker(fn, tasks, results):
+    _init()
+    while True:
+        t = tasks.get()
+        if t is None:
+            return
+        i, item = t
+        results.put((i, "start", os.getpid()))
+        try:
+            results.put((i, "done", fn(item)))
+        except BaseException as ex:  # noqa: BLE001 - reported to the parent, which re-raises
+            import traceback
+
+            results.put((i, "error", f"{type(ex).__name__}: {ex}\n{traceback.format_exc()}"))
+
+
+def pmap(fn, items, jobs=None, timeout=None, default=None):
+    """fn must be a module-level function; items a list of picklable arguments.
+
+    timeout/default: a task still running `timeout` seconds after it started is killed (the CBC backend
+    occasionally does not terminate: seen once, C10 thorough, 60+ CPU-minutes inside CglProbing) and its
+    result is default(item); the task is recorded in TIMED_OUT.  Without `default` there is no watchdog."""
     items = list(items)
     jobs = min(jobs or int(os.environ.get("VERIF_JOBS", "14")), max(1, len(items)))
-    if jobs <= 1 or len(items) <= 1:
-        return [fn(x) for x in items]
+    if default is None:
+        if jobs <= 1 or len(items) <= 1:
+            return [fn(x) for x in items]
+        ctx = multiprocessing.get_context("fork")
+        with ctx.Pool(jobs, initializer=_init) as pool:
+            return pool.map(fn, items, chunksize=1)
+    timeout = float(os.environ.get("VERIF_TASK_TIMEOUT", timeout or 900))
     ctx = multiprocessing.get_context("fork")
-    with ctx.Pool(jobs, initializer=_init) as pool:
-        return pool.map(fn, items, chunksize=1)
+    tasks, results = ctx.Queue(), ctx.Queue()
+    for t in enumerate(items):
+        tasks.put(t)
+    procs = {}
+
+    def spawn():
+        p = ctx.Process(target=_worker, args=(fn, tasks, results), daemon=True)
+        p.start()
+        procs[p.pid] = p
+
+    for _ in range(jobs):
+        spawn()
+    out, running, done = [None] * len(items), {}, 0
+    try:
+        while done < len(items):
+            try:
+                i, kind, val = results.get(timeout=2.0)
+            except Exception:  # queue.Empty
+                i = None
+            if i is not None:
+                if kind == "start":
+                    running[i] = (val, time.time())
+                elif kind == "done":
+                    if i in running:
+                        running.pop(i)
+                        out[i] = val
+                        done += 1
+                else:
+                    raise RuntimeError(f"worker failed on item {i}: {val}")
+            now = time.time()
+            for i, (pid, t0) in list(running.items()):
+                if now - t0 > timeout:
+                    running.pop(i)
+                    p = procs.pop(pid, None)
+                    if p is not None:
+                        p.kill()
+                        p.join()
+                    TIMED_OUT.append((getattr(fn, "__name__", str(fn)), items[i]))
+                    out[i] = default(items[i])
+                    done += 1
+                    spawn()
+            for pid, p in list(procs.items()):
+                if not p.is_alive() and any(rp == pid for rp, _ in running.values()):
+                    # a worker died (the code under test aborted the process): never skip that silently
+                    bad = [items[i] for i, (rp, _) in running.items() if rp == pid]
+                    raise RuntimeError(f"worker {pid} died (exit {p.exitcode}) while running {fn.__name__}{bad!r}")
+    finally:
+        for _ in procs:
+            tasks.put(None)
+        for p in procs.values():
+            p.join(timeout=0.5)
+            if p.is_alive():
+                p.kill()
+    return out
